@@ -13,7 +13,7 @@ def main(argv=None) -> int:
     ap.add_argument('--only', default=None)
     ap.add_argument('--replay', default=None)
     ap.add_argument('--list', action='store_true')
-    ap.add_argument('-j', '--jobs', type=int, default=int(os.environ.get('VERIF_JOBS', '16')))
+    ap.add_argument('-j', '--jobs', type=int, default=int(os.environ.get('VERIF_JOBS', '10')))
     ap.add_argument('-v', '--verbose', action='store_true')
     a = ap.parse_args(argv)
     seed = int(os.environ.get('VERIF_SEED', '0') or 0)
